@@ -56,11 +56,11 @@ theorem C05_signer_source_shape :
 
 /-- **Invariant.**  After every history the manager's pending batch is (up to the volatile Sign-message
 fields) the batch of the most recent successful verification, and that batch satisfied the verifier. -/
-theorem pending_is_last_verified (verifyOk : Batch → Bool) (accts : List Acct) (orders : List Ord)
+theorem pending_is_last_verified (verifyOk : St → Batch → Bool) (accts : List Acct) (orders : List Ord)
     (ops : List Op) :
-    let r := grun verifyOk (initSt accts orders) ⟨none, []⟩ ops
+    let r := grun verifyOk (initSt accts orders) ⟨none, none, []⟩ ops
     r.1.pending.map Batch.core = r.2.lastVerified.map Batch.core ∧
-    ∀ b, r.2.lastVerified = some b → verifyOk b = true := by
+    ∀ b, r.2.lastVerified = some b → ∃ s0, r.2.verifiedAt = some s0 ∧ verifyOk s0 b = true := by
   have h := inv_grun verifyOk _ _ ops (inv_init verifyOk accts orders)
   exact ⟨h.1, h.2.1⟩
 
@@ -69,30 +69,30 @@ released while a successfully verified batch `b` was outstanding, contains exact
 account diff of `b` (in order), and each is the ideal signature by that account's key over the sighash
 preimage of `b.tx` at the input that spends the account's STORED outpoint (SIGHASH_ALL with the account's
 current output for p2wsh accounts, the taproot default sighash with the supplied prevouts otherwise). -/
-theorem C05_sign_only_pending (verifyOk : Batch → Bool) (accts : List Acct) (orders : List Ord)
+theorem C05_sign_only_pending (verifyOk : St → Batch → Bool) (accts : List Acct) (orders : List Ord)
     (ops : List Op) (r : Release)
-    (hr : r ∈ (grun verifyOk (initSt accts orders) ⟨none, []⟩ ops).2.log) :
-    ∃ b, r.batch = some b ∧ verifyOk b = true ∧
+    (hr : r ∈ (grun verifyOk (initSt accts orders) ⟨none, none, []⟩ ops).2.log) :
+    ∃ b s0, r.batch = some b ∧ r.verifiedAt = some s0 ∧ verifyOk s0 b = true ∧
       Forall2 (SigFor r.db b.tx r.prev) b.diffs r.sigs := by
-  obtain ⟨b, h1, h2, h3, _⟩ := (inv_grun verifyOk _ _ ops (inv_init verifyOk accts orders)).2.2 r hr
-  exact ⟨b, h1, h2, h3⟩
+  obtain ⟨b, s0, h1, h1', h2, h3, _⟩ := (inv_grun verifyOk _ _ ops (inv_init verifyOk accts orders)).2.2 r hr
+  exact ⟨b, s0, h1, h1', h2, h3⟩
 
 /-- **After staging.**  Whenever signatures were released, the database held – at the moment of return –
 the staged pending batch: the verified batch's id and transaction, with one staged row per account diff, and
 each row is WHAT that diff says: the stored account moved to the diff's new outpoint / output (version only
 upwards) when re-created, left on the spent output when used up (`RowFor` / `stagedRow`). -/
-theorem C05_release_after_stage (verifyOk : Batch → Bool) (accts : List Acct) (orders : List Ord)
+theorem C05_release_after_stage (verifyOk : St → Batch → Bool) (accts : List Acct) (orders : List Ord)
     (ops : List Op) (r : Release)
-    (hr : r ∈ (grun verifyOk (initSt accts orders) ⟨none, []⟩ ops).2.log) :
+    (hr : r ∈ (grun verifyOk (initSt accts orders) ⟨none, none, []⟩ ops).2.log) :
     ∃ b rows, r.batch = some b ∧
       r.staged = some { id := b.id, tid := b.tid, tx := b.tx, rows := rows } ∧
       rows.map (·.key) = b.diffs.map (·.acct) ∧ Forall2 (RowFor r.db) b.diffs rows := by
-  obtain ⟨b, h1, _, _, rows, h4, h5, h6⟩ :=
+  obtain ⟨b, _, h1, _, _, _, rows, h4, h5, h6⟩ :=
     (inv_grun verifyOk _ _ ops (inv_init verifyOk accts orders)).2.2 r hr
   exact ⟨b, rows, h1, h4, h5, h6⟩
 
 /-- the release log grows only by a `sign` op that returned signatures -/
-theorem C05_log_grows_only_on_ok (verifyOk : Batch → Bool) (s : St) (g : Ghost) (op : Op) :
+theorem C05_log_grows_only_on_ok (verifyOk : St → Batch → Bool) (s : St) (g : Ghost) (op : Op) :
     (gstep verifyOk s g op).2.log = g.log ∨
     ∃ f ns pv S N, op = .sign f ns pv ∧ (step verifyOk s op).2 = .sign (.ok S N) := by
   cases op with
@@ -116,7 +116,7 @@ theorem C05_log_grows_only_on_ok (verifyOk : Batch → Bool) (s : St) (g : Ghost
 /-- **A failed signing stages nothing.**  If the signer fails (unknown account, input not found, missing
 server nonce, signer-client error) or crashes, the database – in particular its staging area – is exactly as
 before the call. -/
-theorem C05_sign_fail_stages_nothing (verifyOk : Batch → Bool) (s : St) (f : Faults) (ns : List Key)
+theorem C05_sign_fail_stages_nothing (verifyOk : St → Batch → Bool) (s : St) (f : Faults) (ns : List Key)
     (pv : List Out)
     (h : (∃ e, (step verifyOk s (.sign f ns pv)).2 = .sign (.errSign e)) ∨
          (step verifyOk s (.sign f ns pv)).2 = .sign .panic) :
@@ -133,7 +133,7 @@ theorem C05_sign_fail_stages_nothing (verifyOk : Batch → Bool) (s : St) (f : F
 
 /-- **A failed staging releases nothing** (and leaves no partial staging): the outcome of a `BatchSign`
 whose storer fails is the bare error – it carries no signature – and the database is as before. -/
-theorem C05_stage_fail_releases_nothing (verifyOk : Batch → Bool) (s : St) (f : Faults) (ns : List Key)
+theorem C05_stage_fail_releases_nothing (verifyOk : St → Batch → Bool) (s : St) (f : Faults) (ns : List Key)
     (pv : List Out) (b : Batch) (S : List Sig) (N : List Key) (c : Ctr)
     (hb : (attachAux s ns pv).pending = some b)
     (hs : signerSign s.db b f = (.ok S N, c))
@@ -147,7 +147,7 @@ theorem C05_stage_fail_releases_nothing (verifyOk : Batch → Bool) (s : St) (f 
   refine ⟨?_, ?_⟩ <;> first | trivial | rfl
 
 /-- an injected store fault (before or inside the database transaction) never yields a release -/
-theorem C05_store_fault_never_releases (verifyOk : Batch → Bool) (s : St) (f : Faults) (ns : List Key)
+theorem C05_store_fault_never_releases (verifyOk : St → Batch → Bool) (s : St) (f : Faults) (ns : List Key)
     (pv : List Out) (hf : f.st ≠ .none) (S : List Sig) (N : List Key) :
     (step verifyOk s (.sign f ns pv)).2 ≠ .sign (.ok S N) := by
   intro h
@@ -162,7 +162,7 @@ theorem C05_store_fault_never_releases (verifyOk : Batch → Bool) (s : St) (f :
 
 /-- a release implies that the staging area holds the pending batch at the moment of return (single step,
 any state) -/
-theorem C05_ok_implies_staged (verifyOk : Batch → Bool) (s : St) (f : Faults) (ns : List Key)
+theorem C05_ok_implies_staged (verifyOk : St → Batch → Bool) (s : St) (f : Faults) (ns : List Key)
     (pv : List Out) (S : List Sig) (N : List Key)
     (h : (step verifyOk s (.sign f ns pv)).2 = .sign (.ok S N)) :
     ∃ b rows, s.pending = some b ∧
@@ -327,7 +327,7 @@ def lastOkStep (cur : Option Batch) (x : Op × Res) : Option Batch :=
 
 def lastOkValidate (xs : List (Op × Res)) : Option Batch := xs.foldl lastOkStep none
 
-theorem grun_eq_run (verifyOk : Batch → Bool) (s : St) (g : Ghost) (ops : List Op) :
+theorem grun_eq_run (verifyOk : St → Batch → Bool) (s : St) (g : Ghost) (ops : List Op) :
     (grun verifyOk s g ops).1 = (run verifyOk s ops).1 ∧
     (grun verifyOk s g ops).2.lastVerified =
       (ops.zip (run verifyOk s ops).2).foldl lastOkStep g.lastVerified := by
@@ -356,26 +356,26 @@ For every history `ops` (proposals accepted or rejected, re-proposals with the s
 requests that failed or succeeded, finalisations, unstaging) followed by a sign request that returns
 signatures: the independent scan of the history finds a last successfully verified, not yet finalised batch
 `b`, it satisfied the verifier, and the signatures are exactly those for `b` (one per diff, over `b.tx`). -/
-theorem C05_release_is_for_last_ok_validate (verifyOk : Batch → Bool) (accts : List Acct) (orders : List Ord)
+theorem C05_release_is_for_last_ok_validate (verifyOk : St → Batch → Bool) (accts : List Acct) (orders : List Ord)
     (ops : List Op) (f : Faults) (ns : List Key) (pv : List Out) (S : List Sig) (N : List Key)
     (h : (step verifyOk (run verifyOk (initSt accts orders) ops).1 (.sign f ns pv)).2 = .sign (.ok S N)) :
     ∃ b, lastOkValidate (ops.zip (run verifyOk (initSt accts orders) ops).2) = some b ∧
-      verifyOk b = true ∧
+      (∃ s0, verifyOk s0 b = true) ∧
       Forall2 (SigFor (run verifyOk (initSt accts orders) ops).1.db b.tx pv) b.diffs S := by
-  obtain ⟨hst, hlv⟩ := grun_eq_run verifyOk (initSt accts orders) ⟨none, []⟩ ops
+  obtain ⟨hst, hlv⟩ := grun_eq_run verifyOk (initSt accts orders) ⟨none, none, []⟩ ops
   have hinv := inv_grun verifyOk _ _ ops (inv_init verifyOk accts orders)
   obtain ⟨b0, rows, hp0, _, hF⟩ := C05_ok_implies_staged verifyOk _ f ns pv S N h
   rw [hst] at hinv
   obtain ⟨hcore, hv, _⟩ := hinv
   rw [hp0] at hcore
-  cases hl : (grun verifyOk (initSt accts orders) ⟨none, []⟩ ops).2.lastVerified with
+  cases hl : (grun verifyOk (initSt accts orders) ⟨none, none, []⟩ ops).2.lastVerified with
   | none => rw [hl] at hcore; simp at hcore
   | some bl =>
     rw [hl] at hcore
     simp at hcore
     have htx : bl.tx = b0.tx := (congrArg Batch.tx hcore).symm
     have hdf : bl.diffs = b0.diffs := (congrArg Batch.diffs hcore).symm
-    refine ⟨bl, ?_, hv bl hl, ?_⟩
+    refine ⟨bl, ?_, (let ⟨s0, _, h0⟩ := hv bl hl; ⟨s0, h0⟩), ?_⟩
     · unfold lastOkValidate; rw [← hlv, hl]
     · rw [htx, hdf]; exact hF
 
@@ -383,14 +383,14 @@ theorem C05_release_is_for_last_ok_validate (verifyOk : Batch → Bool) (accts :
 successfully verified batch that has not been finalised since (never any, all rejected, or the last one was
 finalised), every sign request – with any faults and any Sign-message data – releases nothing (in the model
 it is the nil-dereference crash of `batchSigner.Sign`). -/
-theorem C05_no_release_without_verified_batch (verifyOk : Batch → Bool) (accts : List Acct)
+theorem C05_no_release_without_verified_batch (verifyOk : St → Batch → Bool) (accts : List Acct)
     (orders : List Ord) (ops : List Op) (f : Faults) (ns : List Key) (pv : List Out)
     (h : lastOkValidate (ops.zip (run verifyOk (initSt accts orders) ops).2) = none) :
     (step verifyOk (run verifyOk (initSt accts orders) ops).1 (.sign f ns pv)).2 = .sign .panic := by
-  obtain ⟨hst, hlv⟩ := grun_eq_run verifyOk (initSt accts orders) ⟨none, []⟩ ops
+  obtain ⟨hst, hlv⟩ := grun_eq_run verifyOk (initSt accts orders) ⟨none, none, []⟩ ops
   have hinv := inv_grun verifyOk _ _ ops (inv_init verifyOk accts orders)
   rw [hst] at hinv
-  have hnone : (grun verifyOk (initSt accts orders) ⟨none, []⟩ ops).2.lastVerified = none := by
+  have hnone : (grun verifyOk (initSt accts orders) ⟨none, none, []⟩ ops).2.lastVerified = none := by
     rw [hlv]; exact h
   have hp : (run verifyOk (initSt accts orders) ops).1.pending = none := by
     have := hinv.1
@@ -404,7 +404,7 @@ theorem C05_no_release_without_verified_batch (verifyOk : Batch → Bool) (accts
 
 /-- a rejected proposal – in particular a rejected re-proposal with the ID of the pending batch – changes
 nothing: the pending batch, hence what a following sign request signs, stays the earlier verified one -/
-theorem C05_rejected_proposal_changes_nothing (verifyOk : Batch → Bool) (s : St) (b : Batch)
+theorem C05_rejected_proposal_changes_nothing (verifyOk : St → Batch → Bool) (s : St) (b : Batch)
     (h : (validate verifyOk s b).2 ≠ none) : (validate verifyOk s b).1 = s := by
   unfold validate at *
   split at h
@@ -413,9 +413,9 @@ theorem C05_rejected_proposal_changes_nothing (verifyOk : Batch → Bool) (s : S
 
 /-- an accepted proposal replaces the pending batch – also when it carries the ID of the batch pending so
 far (same-ID re-proposal): from then on only the new version is signed -/
-theorem C05_accepted_proposal_replaces_pending (verifyOk : Batch → Bool) (s : St) (b : Batch)
+theorem C05_accepted_proposal_replaces_pending (verifyOk : St → Batch → Bool) (s : St) (b : Batch)
     (h : (validate verifyOk s b).2 = none) :
-    (validate verifyOk s b).1.pending = some b ∧ verifyOk b = true ∧ (validate verifyOk s b).1.db = s.db := by
+    (validate verifyOk s b).1.pending = some b ∧ verifyOk s b = true ∧ (validate verifyOk s b).1.db = s.db := by
   unfold validate at *
   split at h
   · simp at h
@@ -442,7 +442,7 @@ end Ex
 
 /-- valid proposal → rejected re-proposal → sign: one release, of two signatures (one p2wsh, one taproot),
 for the first batch; the history meets the hypotheses of the three history theorems -/
-example : ((grun (·.vflag) (initSt Ex.accts Ex.orders) ⟨none, []⟩ Ex.hist).2.log.map
+example : ((grun (fun _ b => b.vflag) (initSt Ex.accts Ex.orders) ⟨none, none, []⟩ Ex.hist).2.log.map
     (fun r => (r.batch.map (·.tid), r.sigs.map (fun σ => (σ.key, σ.msg.taproot, σ.msg.idx, σ.msg.outs)),
                r.staged.map (·.id)))) =
     [(some 1, [(1, false, 1, [30, 31, 32]), (2, true, 2, [30, 31, 32])], some 5)] := by rfl
@@ -453,31 +453,31 @@ version (tid 2), and after the finalisation nothing is signed (hypotheses of
 example :
     let b2 : Batch := { Ex.b with tid := 2, tx := ⟨[99, 10, 11], [30, 31, 34], 0⟩ }
     let ops : List Op := [.validate Ex.b, .validate b2, .sign noFaults [2] [50, 20, 21], .finalize 5 false]
-    let r := run (·.vflag) (initSt Ex.accts Ex.orders) ops
-    (lastOkValidate ((ops.take 2).zip (run (·.vflag) (initSt Ex.accts Ex.orders) (ops.take 2)).2)).map (·.tid) = some 2 ∧
+    let r := run (fun _ b => b.vflag) (initSt Ex.accts Ex.orders) ops
+    (lastOkValidate ((ops.take 2).zip (run (fun _ b => b.vflag) (initSt Ex.accts Ex.orders) (ops.take 2)).2)).map (·.tid) = some 2 ∧
     lastOkValidate (ops.zip r.2) = none ∧
-    (step (·.vflag) r.1 (.sign noFaults [2] [50, 20, 21])).2 = .sign .panic := by decide
+    (step (fun _ b => b.vflag) r.1 (.sign noFaults [2] [50, 20, 21])).2 = .sign .panic := by decide
 
 /-- signer fault at the second signer call: error, nothing staged (hypothesis of
 `C05_sign_fail_stages_nothing` is met) -/
-example : (step (·.vflag) (step (·.vflag) (initSt Ex.accts Ex.orders) (.validate Ex.b)).1
+example : (step (fun _ b => b.vflag) (step (fun _ b => b.vflag) (initSt Ex.accts Ex.orders) (.validate Ex.b)).1
     (.sign { noFaults with sf := some 1 } [2] [50, 20, 21])).2 = .sign (.errSign .signer) := by decide
 
 /-- store fault inside the transaction: error (hypotheses of `C05_stage_fail_releases_nothing` /
 `C05_store_fault_never_releases` are met) -/
-example : (step (·.vflag) (step (·.vflag) (initSt Ex.accts Ex.orders) (.validate Ex.b)).1
+example : (step (fun _ b => b.vflag) (step (fun _ b => b.vflag) (initSt Ex.accts Ex.orders) (.validate Ex.b)).1
     (.sign { noFaults with st := .inside } [2] [50, 20, 21])).2 = .sign .errStore := by decide
 
 /-- short prevouts with a taproot account: the crash outcome -/
-example : (step (·.vflag) (step (·.vflag) (initSt Ex.accts Ex.orders) (.validate Ex.b)).1
+example : (step (fun _ b => b.vflag) (step (fun _ b => b.vflag) (initSt Ex.accts Ex.orders) (.validate Ex.b)).1
     (.sign noFaults [2] [50, 20])).2 = .sign .panic := by decide
 
 /-- the handler hands over a sign message on the success path (hypothesis of `C05_send_after_sign`) -/
-example : ((handleSign (step (·.vflag) (initSt Ex.accts Ex.orders) (.validate Ex.b)).1 Ex.env).trace.reverse.map
+example : ((handleSign (step (fun _ b => b.vflag) (initSt Ex.accts Ex.orders) (.validate Ex.b)).1 Ex.env).trace.reverse.map
     (fun e => match e with | .sendSign S _ => S.length | _ => 0)) = [0, 0, 0, 2] := by decide
 
 /-- … and only a reject when the signer fails (hypothesis of `C05_handler_error_sends_no_sig`) -/
-example : (handleSign (step (·.vflag) (initSt Ex.accts Ex.orders) (.validate Ex.b)).1
+example : (handleSign (step (fun _ b => b.vflag) (initSt Ex.accts Ex.orders) (.validate Ex.b)).1
     { Ex.env with faults := { noFaults with sf := some 0 } }).trace.reverse =
     [.parseSign, .chanSetup, .batchSign false, .sendReject] := by decide
 
